@@ -23,7 +23,7 @@ import (
 func TestMain(m *testing.M) { vlib.Main(m) }
 
 var ev = vlib.NewEvidence("C10",
-	"codec: all ordered pairs of the int64 boundary set at all 64 shifts and of the float64 boundary set (exhaustive sub-space, counted under exhaustive_*), plus generated pairs of arbitrary values; non-trivial = the two values differ and lie on both sides of a 4-bit or 7-bit structure boundary (their truncations differ at shift s but agree at s+4, or the pair straddles the sign change). "+
+	"codec: all ordered pairs of the int64 boundary set at all 64 shifts and of the float64 boundary set (exhaustive sub-space, counted under exhaustive_*), plus generated pairs of arbitrary values; non-trivial = the two values differ and lie on both sides of a 4-bit or 7-bit structure boundary (their truncations differ at shift s but agree at s+4, or the pair straddles the sign change); geo hashes: generated lon/lat and 32-bit halves, non-trivial = both halves use their upper 16 bits. "+
 		"ranges: generated intervals (each end closed/open/unbounded, ordered/inverted/degenerate; ends at boundary values, a few steps beside them, arbitrary) run as NumericRange/DateRange queries on an index holding every boundary value (single- and multi-valued documents, several segments) or on a freshly built index whose values sit on and beside the ends, hit set compared with direct evaluation under the total order; non-trivial = the interval decomposes into sub-ranges on >= 2 precision levels or touches an extreme/unbounded end")
 
 // sampleOnce keeps at most one non-trivial sample per kind, so that the few sample slots of the
@@ -531,7 +531,9 @@ func TestC10TokensAndGeo(t *testing.T) {
 			c.Lat = rapid.Float64Range(-90, 90).Draw(rt, "lat")
 		}
 		f := propGeo(c)
-		ev.Case(vlib.Canon(c), true, "geo")
+		// non-trivial: both interleaved halves use their upper 16 bits (the hash spreads over
+		// more than four 9-bit geo levels)
+		ev.Case(vlib.Canon(c), c.X&0xffffffff >= 1<<16 && c.Y&0xffffffff >= 1<<16, "geo")
 		vlib.Report(rt, ev, "geo", c, f)
 	})
 }
